@@ -46,6 +46,7 @@ STUBS = {
     'drop_even': ('bytes::bytes::promotable_even_drop', 'crate::common::stubs::drop_noop'),
     'drop_odd': ('bytes::bytes::promotable_odd_drop', 'crate::common::stubs::drop_noop'),
     'bm': ('bytes::BytesMut::new', 'crate::common::stubs::bm_new'),
+    'reserve': ('bytes::bytes_mut::BytesMut::reserve_inner', 'crate::common::stubs::reserve_inner_stub'),
     'canon': ('ipp::util::canonicalize_uri', 'crate::common::stubs::canon_id'),
     'block_on': ('futures_executor::local_pool::block_on', 'crate::common::stubs::block_on_stub'),
 }
@@ -57,10 +58,11 @@ STUB_TEXT = {
     'drop_odd': 'bytes::bytes::promotable_odd_drop -> no-op (buffer leaked)',
     'bm': 'bytes::BytesMut::new -> BytesMut::with_capacity(256) (no growth path)',
     'block_on': 'futures_executor::block_on -> poll loop with a no-op waker (Kani cannot compile the thread-parking executor)',
+    'reserve': 'bytes::BytesMut::reserve_inner -> assert(false); assume(false): growth beyond the pre-sized 256-byte buffer is outside the model and would be reported',
     'canon': 'ipp::util::canonicalize_uri -> identity (harness passes an already canonical ipp:// URI; C13 owns the canonicaliser)',
 }
-DEFAULT_STUBS = ['lossy', 'drop_even', 'drop_odd', 'bm', 'block_on']
-ASCII_STUBS = ['lossy_ascii', 'drop_even', 'drop_odd', 'bm', 'block_on']
+DEFAULT_STUBS = ['lossy', 'drop_even', 'drop_odd', 'bm', 'block_on', 'reserve']
+ASCII_STUBS = ['lossy_ascii', 'drop_even', 'drop_odd', 'bm', 'block_on', 'reserve']
 # initial per-loop bounds by pretty function name (regex); everything else starts at the harness's
 # default unwind (small, also the recursion bound) and is raised on demand by auto-deepening
 DEFAULT_BOUNDS = {
@@ -414,7 +416,7 @@ def decide(h, art, tier_cfg, use_cache=True):
     runs = []
     total = {'Symex': 0.0, 'Solver': 0.0, 'decision procedure': 0.0}
     res = None
-    for it in range(40):
+    for it in range(60):
         left = budget - (time.time() - t_start)
         if left < 5:
             return {'name': name, 'verdict': 'INCONCLUSIVE', 'why': 'time budget %ds exhausted during bound deepening' % budget,
@@ -439,7 +441,9 @@ def decide(h, art, tier_cfg, use_cache=True):
             cur = want.get((fn, no), unwind)
             if cur >= cap:
                 continue
-            want[(fn, no)] = min(cap, max(cur * 2, cur + 2))
+            # small bounds grow by one (an overshoot lets symex run loop bodies past the real trip count when the exit
+            # condition is only decidable by the solver), larger ones double
+            want[(fn, no)] = min(cap, cur + 1 if cur < 6 else cur * 2)
             grew = True
         if not grew:
             return {'name': name, 'verdict': 'INCONCLUSIVE', 'why': 'unwinding assertion still failing at cap %d: %s' % (cap, c['unwind'][:4]),
